@@ -101,7 +101,6 @@ def run(ctx):
     sup = {
         (tzp.qualname, "l[n]"): "n ranges over set(range(len_l)) minus the used indices",
         ("dateutil.relativedelta.relativedelta.__init__", "weekdays[weekday]"): "tzstr passes a weekday object, never an int (relativedelta.weekday(x.weekday, x.week))",
-        ("dateutil.relativedelta.relativedelta.__init__", "ydayidx[idx - 1]"): "else-branch of idx == 0 inside enumerate(): idx >= 1",
     }
     check_escape(ctx, "C08.EXC", init, ("ValueError",), seeds={(init.qualname, "s"): ["str"]}, suppress=sup, min_functions=8, label="tzstr()")
     check_escape(ctx, "C08.EXC", tzp, (), seeds={(tzp.qualname, "tzstr"): ["str"]}, suppress=sup, min_functions=2, label="_tzparser.parse()")
